@@ -224,7 +224,7 @@ Proof.
     destruct (eui_from_str eui) as [e|] eqn:Ee; [|now split]. apply one_call; [exact Hok|]. now apply eui_from_str_ok in Ee.
   - (* ASendMessage *)
     destruct (eui_from_str eui) as [e|] eqn:Ee; [|now split]. apply eui_from_str_ok in Ee.
-    destruct ((255 <? port) || (port <? 0))%Z eqn:Ep; [now split|].
+    destruct ((223 <? port) || (port <? 1))%Z eqn:Ep; [now split|].
     apply one_call; [exact Hok|]. cbn [regop_ok]. apply andb_true_iff in Hq. destruct Hq as [Hp Hn].
     apply down_ok_spec. cbn. apply eui_ok_lt in Ee. apply orb_false_iff in Ep. destruct Ep as [P1 P2].
     repeat split; try assumption; try reflexivity; try lia. now apply hex_enc_ok.
